@@ -33,6 +33,7 @@ GATES = {
     "settings_compared_per_case": 6, "cases_compared_across_processes": 5, "kernel_refinement": 1, "kernel_ambiguity": 1,
     "kernel_risk": 1, "kernel_interval_bounds": 1, "kernel_regularisation": 1, "histories_with_other_matching_cost_class": 1,
     "multiband_mask_inputs": 1, "input_digests_compared": 20, "repetitions_compared": 20,
+    "history_of_a_pipeline_without_disparity_step": 1, "history_of_a_multiscale_pipeline": 1,
 }
 SETTINGS = [("t1", 1, True), ("t2", 2, True), ("t3", 3, True), ("t4", 4, True), ("t8", 8, True), ("t16", 16, True), ("seq", 2, False)]
 
@@ -144,6 +145,9 @@ def run_once(pipe, left, right, machine=None):
     tr.uninstall()
     full = gen.ds_digest(l, with_attrs=False) + gen.ds_digest(r, with_attrs=False) if len(r.sizes) else gen.ds_digest(l, with_attrs=False)
     if "flags" not in pre:
+        if "disparity_map" not in l:
+            # a pipeline that stops before the disparity step: there is no map, the partial digest is the full one
+            return full, full[:20], m
         pre["flags"], pre["disp"] = l["validity_mask"].data, l["disparity_map"].data
     import hashlib
     h = hashlib.sha256()
@@ -194,6 +198,20 @@ def _hist(case, ctx):
     rng = ctx.rng("hist", case["part"], case["i"])
     c = int(rng.integers(0, 8))
     pipe, left, right, desc = make_case(ctx, c)
+    variant = case["i"] % 4
+    if variant == 1:
+        # the pipeline stops after its confidence steps (cost volume and confidence bands only)
+        ks = list(pipe)
+        pipe = {k: pipe[k] for k in ks[:ks.index("disparity")]}
+        desc = dict(desc, pipeline=list(pipe), variant="stops-before-the-disparity-step")
+    elif variant == 2:
+        # a multiscale pipeline with confidence steps
+        ks = list(pipe)
+        pipe = {k: pipe[k] for k in ks[:ks.index("disparity") + 2] if k != "cost_volume_confidence.ib" and k != "aggregation"}
+        pipe["multiscale"] = {"multiscale_method": "fixed_zoom_pyramid", "num_scales": 2, "scale_factor": 2, "marge": 1}
+        desc = dict(desc, pipeline=list(pipe), variant="multiscale")
+    ctx.gate("history_of_a_pipeline_without_disparity_step", int(variant == 1))
+    ctx.gate("history_of_a_multiscale_pipeline", int(variant == 2))
     M = pipes.new_machine()
     ref_full, _, _ = run_once(pipe, gen.deep_copy_ds(left), gen.deep_copy_ds(right), pipes.new_machine())
     digests = []
